@@ -27,7 +27,7 @@ def describe(tier):
             "the same alphabet, every ordered pair of them drawn from a 14-keyword menu (prefixes of one another, case variants, duplicates), and all "
             "length-3 keywords over {a,A,.}; each (list, data) is given to find_keywords and compared, as a complete list of (start, end, value, "
             "label, type) per keyword, with a reference: leftmost non-overlapping case-insensitive literal search (re.finditer on the escaped keyword) + "
-            "ASCII-alphanumeric neighbour filter + MixedCase truth table from the statement. Keywords next to / inside alphanumeric runs whose length runs over the boundary ladder (0..5000, thorough ..70000). A generated keyword directory (CRLF, blank lines, nested "
+            "ASCII-alphanumeric neighbour filter + MixedCase truth table from the statement. Keywords next to / inside alphanumeric runs whose length runs over the boundary ladder (0..5000, thorough ..70000). EVERY pair of byte values (65536) immediately before and immediately after an occurrence of 3 keywords (thorough: 3-byte neighbourhoods over 48 interesting bytes). A generated keyword directory (CRLF, blank lines, nested "
             "dir, duplicates) is also loaded through build_registry and its searchers compared on the same data. states = distinct (keyword list, data) "
             "pairs, transitions = keyword occurrences examined by the reference, traces = calls compared. Non-trivial = a pair with >= 1 expected hit."
         ),
@@ -50,6 +50,7 @@ def plan(tier, seed):
     units += [("pair", tier, i) for i in range(len(PAIR_MENU))]
     units += [("triple", tier)]
     units += [("registry", tier), ("runs", tier)]
+    units += [("neigh", tier, hi) for hi in range(0, 256, 16)]
     return units
 
 
@@ -139,6 +140,28 @@ def run_unit(unit, rec):
                         rec.mark("states", 0, True)
                         check(rec, "api", [kw], data)
         rec.sample({"keywords": kws, "run_lengths": core.ladder(0, 5000)[-6:]})
+    elif kind == "neigh":
+        # EVERY pair of byte values immediately before, and immediately after, an occurrence (only the ASCII-alphanumeric status of the one
+        # adjacent byte may matter: escapes, high bytes, control bytes and what precedes them must not)
+        n = 0
+        interesting = [bytes([c]) for c in b"\\nrt01aZ_-./ \x00\n\r\t\xe9\xff%&;:'\"()[]{}<>^`$#@!?*+=,|~"]
+        for b1 in range(unit[2], unit[2] + 16):
+            for b2 in range(256):
+                two = bytes([b1, b2])
+                for kw in (b"a", b"ab", b"a.b"):
+                    for data in (two + kw, two + kw.upper() + b" ", kw + two, b" " + kw + two, two + kw + two):
+                        rec.mark("states", 0, True)
+                        check(rec, "api", [kw], data)
+                        n += 1
+            if tier == "thorough":
+                for x in interesting:
+                    for y in interesting:
+                        three = bytes([b1]) + x + y
+                        for data in (three + b"ab", b"ab" + three[::-1]):
+                            rec.mark("states", 0, True)
+                            check(rec, "api", [b"ab"], data)
+                            n += 1
+        rec.sample({"family": "every-2-byte-neighbourhood", "first_bytes": [unit[2], unit[2] + 15], "cases": n})
     elif kind == "registry":
         d = tempfile.mkdtemp(prefix="c17kw")
         try:
